@@ -82,21 +82,26 @@ namespace fam_lockhash {
         return b;
     }
 
-    // default decoder of the C16 harnesses (lockhash, seq_lockhash): cfg[3]=init cfg[4]=probe cfg[5]=thr cfg[6]=hash
-    inline Params decode_params_c16( Case const& c, ContKind kind )
+    // default decoder of the C16 harnesses (lockhash*, seq_lockhash*): cfg[3]=init cfg[4]=probe cfg[5]=thr cfg[6]=hash
+    // `few_keys`: the harness uses at most 4 keys (concurrent mode): then 2 * probe-set size >= number of keys and even
+    // strongly colliding (but injective) tuples cannot run into the CuckooSet::resize() element drop (C17 finding), so they
+    // are used to make resizes frequent; the sequential mode (8 keys) keeps to tuples with at least one low-bit bijection
+    inline Params decode_params_c16( Case const& c, ContKind kind, bool few_keys )
     {
         Params p;
         int init = cfg_at( c, 3, 0 ), probe = cfg_at( c, 4, 0 ), thr = cfg_at( c, 5, 0 ), hs = cfg_at( c, 6, 0 );
-        p.init = size_t( 1 + ( init & 3 ));                     // 1..4
+        static const size_t inits[4] = { 1, 1, 2, 4 };
+        p.init = inits[init & 3];
         p.probe = ( probe & 1 ) ? 4u : 2u;
         p.thr = unsigned( 1 + thr % 2 );                        // 1 or 2 (clamped below the probe-set size by the maker)
         if ( kind == CK_CUCKOO ) {
             // injective members only: the table stops growing once it has 2^k >= key-space buckets
-            static const HashFn tuples[6][2] = {
+            static const HashFn tuples[8][2] = {
                 { { HK_IDENT, 0 }, { HK_AFFINE, 0 } }, { { HK_IDENT, 0 }, { HK_NOT, 0 } }, { { HK_MUL, 1 }, { HK_AFFINE, 0 } },
                 { { HK_AFFINE, 0 }, { HK_IDENT, 0 } }, { { HK_SHL, 1 }, { HK_IDENT, 0 } }, { { HK_IDENT, 0 }, { HK_SHL, 2 } },
+                { { HK_SHL, 2 }, { HK_SHL, 1 } }, { { HK_SHL, 1 }, { HK_SHL, 3 } },
             };
-            int t = hs % 6;
+            int t = hs % ( few_keys ? 8 : 6 );
             p.h[0] = tuples[t][0];
             p.h[1] = tuples[t][1];
         }
